@@ -359,6 +359,8 @@ def run(pid, tier, queries, scratch, logdir, known):
     rc = os.path.join(scratch, "repo")
     if not os.path.isdir(rc):
         rc = C.copy_repo(scratch)
+    if tier == "thorough":
+        os.environ["MIRSMT_DIFF"] = "1"  # effects mode: every z3 verdict is re-decided by cvc5 on the same SMT-LIB text
     effq = [q for q in queries if q.kind == "effects"]
     queries = [q for q in queries if q.kind != "effects"]
     for q in effq:
@@ -594,6 +596,8 @@ def run_effects(q, pid, rc, scratch, logdir, known, out):
     sample["obligations"] = [{k: o.get(k) for k in ("id", "text", "holds", "paths", "ok_paths", "panic_paths_not_followed", "function", "witnesses")} for o in r.get("obligations", [])]
     out["functions"] = sorted(set(out.get("functions", [])) | set(o.get("function", "") for o in r.get("obligations", [])))
     sample["solver_s"] = r.get("wall_s")
+    if r.get("second_solver"):
+        sample["second_solver"] = r["second_solver"]
     out["solver_s"] = out.get("solver_s", 0.0) + (r.get("wall_s") or 0.0)
     if r.get("error") or len(r.get("obligations", [])) < q.min_obligations:
         sample["verdict"] = "inconclusive"
